@@ -26,6 +26,8 @@ ASSUMPTIONS = ["float64 CPU", "expected exception family: any Exception raised b
                "electron counts outside [2, 2*n_orbitals - 2] are not generated"]
 REQUIRED_MONITORS = ["negative_raised", "negative_fresh_checked", "negative_precomputed_checked", "positive_rows_finite",
                      "guard_sites_seen"]
+# thorough tier: cases not started after this many seconds are skipped and reported (env override for smoke tests)
+BUDGET_S = {"thorough": float(__import__("os").environ.get("VERIF_C18_BUDGET", "1500"))}
 CASE_TIMEOUT = 600.0
 
 RESULT_ATTRS = ("Etot", "Eelec", "Enuc", "Hf", "Eiso", "force", "dm", "e_mo", "e_gap", "q")
@@ -121,7 +123,16 @@ def gen_cases(tier, seed):
             c.update({"mols": [names[int(j)] for j in g.integers(0, len(names), k)],
                       "scales": [float(g.choice([0.55, 0.7, 1.0, 1.0, 2.0, 4.0, 12.0])) for _ in range(k)], "uhf": False})
         pos.append(c)
-    return cases + pos
+    # interleave the two spaces so that a truncated (budgeted) run still exercises both
+    out = []
+    step = max(1, len(pos) // max(1, len(cases)))
+    pi = 0
+    for c in cases:
+        out.append(c)
+        out.extend(pos[pi:pi + step])
+        pi += step
+    out.extend(pos[pi:])
+    return out
 
 
 # ---------------------------------------------------------------------------------------------
